@@ -22,7 +22,7 @@ def main():
     prop, var = sys.argv[1], sys.argv[2]
     extra = sys.argv[3:]
     d = "/tmp/mut/%s/%s" % (prop, var)
-    wt = "/tmp/wt/%s" % prop
+    wt = os.environ.get("MUT_WT") or "/tmp/wt/%s" % prop  # MUT_WT: a pre-built evaluation worktree shared by several changes
     if not os.path.exists(os.path.join(d, "patch.diff")):
         print("no patch in", d)
         return 1
